@@ -111,6 +111,19 @@ pub uninterp spec fn fminf(a: f64, b: f64) -> f64;
 pub uninterp spec fn fabsf(a: f64) -> f64;
 pub uninterp spec fn fisnan(a: f64) -> bool;
 pub uninterp spec fn fisfinite(a: f64) -> bool;
+pub uninterp spec fn fisinfinite(a: f64) -> bool;
+// IEEE classification facts (discharged for ALL f64 / all pairs by the loop-free Kani harness
+// `ieee_classification`): finite <=> neither NaN nor infinite; NaN and infinite exclude each other;
+// a pair is unordered exactly when one side is NaN; 0.0 is finite.
+pub axiom fn ax_ieee_class()
+    ensures
+        forall|a: f64| #[trigger] fisfinite(a) == (!fisnan(a) && !fisinfinite(a)),
+        forall|a: f64| #[trigger] fisnan(a) ==> !fisinfinite(a),
+        forall|a: f64, b: f64| (#[trigger] fcmp(a, b) is None) == (fisnan(a) || fisnan(b)),
+        fisfinite(0.0f64),
+        // (core::cmp::Ordering has exactly three variants: the Rust enum, opaque to this Verus)
+        forall|a: f64, b: f64| #[trigger] fcmp(a, b) is None || fcmp(a, b) == Some(core::cmp::Ordering::Less)
+            || fcmp(a, b) == Some(core::cmp::Ordering::Equal) || fcmp(a, b) == Some(core::cmp::Ordering::Greater);
 pub uninterp spec fn fpowf(a: f64, b: f64) -> f64;
 pub uninterp spec fn ftotalcmp(a: f64, b: f64) -> core::cmp::Ordering;
 pub assume_specification [f64::max] (a: f64, b: f64) -> (r: f64) ensures r == fmaxf(a, b);
@@ -118,6 +131,7 @@ pub assume_specification [f64::min] (a: f64, b: f64) -> (r: f64) ensures r == fm
 pub assume_specification [f64::abs] (a: f64) -> (r: f64) ensures r == fabsf(a);
 pub assume_specification [f64::is_nan] (a: f64) -> (r: bool) ensures r == fisnan(a);
 pub assume_specification [f64::is_finite] (a: f64) -> (r: bool) ensures r == fisfinite(a);
+pub assume_specification [f64::is_infinite] (a: f64) -> (r: bool) ensures r == fisinfinite(a);
 pub assume_specification [f64::powf] (a: f64, b: f64) -> (r: f64) ensures r == fpowf(a, b);
 pub assume_specification [f64::total_cmp] (a: &f64, b: &f64) -> (r: core::cmp::Ordering) ensures r == ftotalcmp(*a, *b);
 
@@ -258,23 +272,78 @@ pub open spec fn pnext_ok(num: PlayerNum, p_player: [f64; 2], prob: f64, p_next:
     }
 }
 
+#[verifier::external_body] pub struct AtomicF64 { }
+#[verifier::external_body]
+#[verifier::reject_recursive_types(T)]
+pub struct Mutex<T> { t: core::marker::PhantomData<T> }
+
+// ---- extracted from src/solve/vanilla.rs: struct MutexRegretInfoset ----
+pub struct MutexRegretInfoset {
+    pub cum_regret: Box<[AtomicF64]>,
+    pub cum_strat: Mutex<Box<[f64]>>,
+    pub strat: Box<[f64]>,
+}
+
 // ---- extracted from src/solve/vanilla.rs: fn thread_threshold ----
-pub fn thread_threshold__player_action<'a>(player: &Player, prob: &f64, next: &'a Node, p_chance: f64, p_player: [f64; 2], work: &mut Vec<(&'a Node, f64, [f64; 2])>, mut next_probs: [f64; 2])
+pub fn thread_threshold__player_node<'a, 'b>(player: &'a Player, p_chance: f64, p_player: [f64; 2], mut player_infosets: [&'b mut [MutexRegretInfoset]; 2], work: &mut Vec<(&'a Node, f64, [f64; 2])>)
+    requires
+        player.infoset < (match player.num { PlayerNum::One => player_infosets[0]@, PlayerNum::Two => player_infosets[1]@ }).len(),
+        (match player.num { PlayerNum::One => player_infosets[0]@, PlayerNum::Two => player_infosets[1]@ })[player.infoset as int].strat@.len() == player.actions@.len(),
     ensures
-        // exactly one frontier entry per action: the child, the unchanged chance reach, and the reach
-        // vector of ITS path -- only the acting player's entry multiplied by this action's probability
-        final(work)@.len() == old(work)@.len() + 1,
+        // exactly one frontier entry per action, in order: the child, the unchanged chance reach, and the
+        // reach vector of ITS path -- only the acting player's entry multiplied by this action's probability
+        final(work)@.len() == old(work)@.len() + player.actions@.len(),
         final(work)@.take(old(work)@.len() as int) == old(work)@,
-        final(work)@.last().0 == next && final(work)@.last().1 == p_chance, // @ob C06.V.thread_threshold.frontier_reach
-        pnext_ok(player.num, p_player, *prob, final(work)@.last().2), // @ob C06.V.thread_threshold.frontier_reach
+        forall|a: int| 0 <= a < player.actions@.len() ==> (#[trigger] final(work)@[old(work)@.len() + a]).0 == &player.actions@[a]
+            && final(work)@[old(work)@.len() + a].1 == p_chance
+            && pnext_ok(player.num, p_player, (match player.num { PlayerNum::One => player_infosets[0]@, PlayerNum::Two => player_infosets[1]@ })[player.infoset as int].strat@[a],
+                        final(work)@[old(work)@.len() + a].2), // @ob C06.V.thread_threshold.frontier_reach
 {
 broadcast use fl; broadcast use ideal;
 proof { ax_obeys(); ax_rv_lits(); }
+let ghost w0 = work@;
+let ghost st = (match player.num { PlayerNum::One => player_infosets[0]@, PlayerNum::Two => player_infosets[1]@ })[player.infoset as int].strat@;
+let ghost acts = player.actions@;
+
+                let probs = &player.num.ind_mut(&mut player_infosets)[player.infoset].strat;
+                for (prob, next) in it: probs.iter().zip(player.actions.iter()) 
+invariant
+    probs@ == st, st.len() == acts.len(), acts == player.actions@,
+    0 <= it.index@ <= acts.len(),
+    work@.len() == w0.len() + it.index@,
+    work@.take(w0.len() as int) == w0,
+    forall|a: int| 0 <= a < it.index@ ==> (#[trigger] work@[w0.len() + a]).0 == &acts[a] && work@[w0.len() + a].1 == p_chance
+        && pnext_ok(player.num, p_player, st[a], work@[w0.len() + a].2),
+{
+broadcast use fl; broadcast use ideal;
+proof { ax_obeys(); ax_rv_lits(); }
+let ghost k = it.index@ as int;
+let ghost wb = work@;
 
                     let mut next_probs = p_player;
                     *player.num.ind_mut(&mut next_probs) = *player.num.ind_mut(&mut next_probs) * ( prob);
                     work.push((next, p_chance, next_probs));
-                }
+                
+proof {
+    assert(work@.len() == wb.len() + 1);
+    assert(work@.take(w0.len() as int) =~= w0);
+    assert(forall|a: int| 0 <= a < k ==> (#[trigger] work@[w0.len() + a]) == wb[w0.len() + a]);
+}
+}
+            }
+
+// ---- extracted from src/solve/vanilla.rs: fn thread_threshold ----
+pub fn thread_threshold__chance_outcome<'a>(prob: &f64, node: &'a Node, p_chance: f64, p_player: [f64; 2]) -> (out: (&'a Node, f64, [f64; 2]))
+    ensures
+        // a chance outcome enters the frontier with the chance reach of ITS path (parent reach x outcome
+        // probability) and unchanged player reaches
+        out.0 == node && out.2 == p_player, // @ob C06.V.thread_threshold.frontier_reach_chance
+        rv(out.1) == rv(p_chance) * rv(*prob), // @ob C06.V.thread_threshold.frontier_reach_chance
+{
+broadcast use fl; broadcast use ideal;
+proof { ax_obeys(); ax_rv_lits(); }
+(node, p_chance * prob, p_player)
+}
 
 
 // vacuity canary: must be REJECTED by the verifier (an inconsistent axiom set would accept it)
